@@ -136,6 +136,21 @@ Proof.
   intros a b la lb sa sb H1 H2 H3 H4 H5 H6. split; unfold run; vm_compute; rewrite ?H1, ?H2, ?H3, ?H4; vm_compute; rewrite H5, H6; reflexivity.
 Qed.
 
+(* two transfers are equal iff their linkages are and their calling conventions are, each compared by the String it stands on *)
+Theorem c15_transfer_eq : forall a b la lb ca cb gla glb gca gcb sla slb sca scb,
+  P "Basic_binary::first" (VObj a) [] = VObj la -> P "Basic_binary::first" (VObj b) [] = VObj lb ->
+  P "Basic_binary::second" (VObj a) [] = VObj ca -> P "Basic_binary::second" (VObj b) [] = VObj cb ->
+  F "lang" (VObj la) = VObj gla -> F "lang" (VObj lb) = VObj glb ->
+  F "conv" (VObj ca) = VObj gca -> F "conv" (VObj cb) = VObj gcb ->
+  P "Basic_unary::operand" (VObj gla) [] = VObj sla -> P "Basic_unary::operand" (VObj glb) [] = VObj slb ->
+  P "Basic_unary::operand" (VObj gca) [] = VObj sca -> P "Basic_unary::operand" (VObj gcb) [] = VObj scb ->
+  run I "Transfer::operator==" (VObj a) [VObj b] = VB (Nat.eqb sla slb && Nat.eqb sca scb).
+Proof.
+  intros a b la lb ca cb gla glb gca gcb sla slb sca scb H1 H2 H3 H4 H5 H6 H7 H8 H9 H10 H11 H12.
+  unfold run. vm_compute. rewrite ?H1, ?H2, ?H3, ?H4. vm_compute. rewrite ?H5, ?H6, ?H7, ?H8. vm_compute.
+  rewrite ?H9, ?H10, ?H11, ?H12. vm_compute. reflexivity.
+Qed.
+
 Theorem c15_basic_specifier_eq : forall a b pa pb,
   F "spec" (VObj a) = VObj pa -> F "spec" (VObj b) = VObj pb ->
   F "qual" (VObj a) = VObj pa -> F "qual" (VObj b) = VObj pb ->
@@ -233,6 +248,7 @@ Print Assumptions c15_try_block.
 Print Assumptions c15_template_parameter_type.
 Print Assumptions c15_logogram_eq.
 Print Assumptions c15_linkage_convention_eq.
+Print Assumptions c15_transfer_eq.
 Print Assumptions c15_basic_specifier_eq.
 Print Assumptions c15_equalities_are_equivalences.
 Print Assumptions c15_named_accessors_are_primitives.
